@@ -169,6 +169,9 @@ def job(j, seed):
                 for k in range(2):
                     a2[d, k] = en[k] + d
             env = Variable(_arr=a2, dims=('detector', 'energy_transfer'), unit=uE, dtype=sc.DType.float64)
+            if mode == 'indirect-T':
+                # the same table handed over with its dimensions in the other order
+                env = Variable(_arr=a2.T.copy(), dims=('energy_transfer', 'detector'), unit=uE, dtype=sc.DType.float64)
             em = models.EnergyMode.indirect
         exps.append(models.SqwIXExperiment(
             run_id=i, efix=efv, emode=em, en=env, psi=Variable(dims=(), values=ang['psi'], unit=au, dtype='float64'),
@@ -431,7 +434,7 @@ def run(chk):
     ir = loader.load('io.sqw._ir')
     chk.functions = loader.describe_exprs(['build._split_pix_rows', 'build._PixWrap.write', 'build.SqwBuilder._make_pix_metadata', 'build._broadcast_unique_ref', 'models.SqwIXExperiment._serialize_to_dict', 'models.SqwMultiIXExperiment._serialize_to_dict', 'models.SqwIXSample._serialize_to_dict', 'models.SqwPixelMetadata._serialize_to_dict', 'models.SqwLineProj._serialize_to_dict', 'models.SqwLineAxes._serialize_to_dict', 'models.UniqueObjContainer._serialize_to_dict', 'models._variable_to_float_array', 'models._angle_value', 'models._serialize_multi_unit_array', 'ir._serialize_field', 'rw.write_object_array', 'rw.read_object_array', 'sqw._parse_ix_sample_0_0', 'sqw._parse_line_proj_7_0', 'sqw._parse_single_ix_experiment_3_0', 'sqw._parse_pix_metadata_1_0', 'sqw._read_pix_block', 'sqw._read_dnd_block'], {**globals(), **locals()})
     jobs = [(3, 2, 'deg', 'direct'), (2, 5, 'rad', 'indirect'), (0, 1, 'rad', 'direct'), (1, 1, 'deg', 'indirect'), (1, 1, 'rad', 'direct', (3, 1, 2, 4)), (0, 1, 'rad', 'direct', (1, 1)),
-            (1, 1, 'rad', 'direct', None, 'int64')]
+            (1, 1, 'rad', 'direct', None, 'int64'), (1, 1, 'deg', 'indirect-T')]
     if chk.tier == 'thorough':
         jobs += [(3, 1, 'rad', 'direct'), (3, 3, 'deg', 'indirect'), (2, 1, 'deg', 'direct'), (3, 4, 'rad', 'indirect')]
     run_jobs(chk, job, jobs)
@@ -464,7 +467,8 @@ def replay_real(case):
     exps = [S.SqwIXExperiment(run_id=i, efix=sc.scalar(1.2e-3 + i, unit='eV') if direct else sc.array(dims=['detector'], values=[1.2e-3 + i, 2e-3], unit='eV'),
                               emode=S.EnergyMode.direct if direct else S.EnergyMode.indirect,
                               en=sc.array(dims=['energy_transfer'], values=[3.0, 4.0], unit='ueV') if direct else
-                              sc.array(dims=['detector', 'energy_transfer'], values=[[3.0, 4.0], [5.0, 6.0]], unit='ueV'), psi=sc.scalar(12.0 + i, unit=au),
+                              (sc.array(dims=['detector', 'energy_transfer'], values=[[3.0, 4.0, 4.5], [5.0, 6.0, 7.5]], unit='ueV') if case.get('mode') != 'indirect-T' else
+                               sc.array(dims=['energy_transfer', 'detector'], values=[[3.0, 5.0], [4.0, 6.0], [4.5, 7.5]], unit='ueV')), psi=sc.scalar(12.0 + i, unit=au),
                               u=sc.vector([0.0, 1.0, 0.0]), v=sc.vector([1.0, 1.0, 0.0]), omega=sc.scalar(1.4, unit=au), dpsi=sc.scalar(46.0, unit=au),
                               gl=sc.scalar(3.0, unit=au), gs=sc.scalar(-0.5, unit=au), filename=f'run{i}', filepath='/p') for i in range(n_runs)]
     hshape = case.get('hist_shape', [2.0, 3.0])
@@ -532,7 +536,8 @@ def replay_real(case):
                 bad.append(f'run id {e.run_id}')
             if not sc.allclose(e.efix, exps[i].efix.to(unit='meV')):
                 bad.append('efix')
-            if e.en.dims != exps[i].en.dims or not sc.allclose(e.en, exps[i].en.to(unit='meV')):
+            want_en = exps[i].en.to(unit='meV') if exps[i].en.ndim == 1 else exps[i].en.to(unit='meV').transpose(['detector', 'energy_transfer']).copy()
+            if e.en.dims != want_en.dims or e.en.shape != want_en.shape or not sc.allclose(e.en, want_en):
                 bad.append(f'en: {e.en.sizes} vs {exps[i].en.sizes}')
             for an in ('psi', 'omega', 'dpsi', 'gl', 'gs'):
                 if not sc.allclose(getattr(e, an).to(unit='rad'), getattr(exps[i], an).to(unit='rad')):
